@@ -50,4 +50,28 @@ def groupSpec (rows : List (κ × Nat)) : List (κ × List Nat) :=
 def distinctImpl (rows : List (κ × Nat)) : List Nat :=
   (rows.foldl (fun (acc : List κ × List Nat) r => if r.1 ∈ acc.1 then acc else (acc.1 ++ [r.1], acc.2 ++ [r.2])) ([], [])).2
 
+
+/-! ### DISTINCT rows and the set operators (view.go: Select with DISTINCT, Union, Except, Intersect) -/
+
+/-- keep the first row of every key, in order (the `values[key]` loop of DISTINCT / UNION / … ) -/
+def keepFirstAux {ρ : Type} (acc : List κ × List (κ × ρ)) : List (κ × ρ) → List κ × List (κ × ρ)
+  | [] => acc
+  | r :: rs => if r.1 ∈ acc.1 then keepFirstAux acc rs else keepFirstAux (acc.1 ++ [r.1], acc.2 ++ [r]) rs
+
+def keepFirst {ρ : Type} (rows : List (κ × ρ)) : List (κ × ρ) := (keepFirstAux ([], []) rows).2
+
+/-- View.Union -/
+def unionImpl {ρ : Type} (all : Bool) (a b : List (κ × ρ)) : List (κ × ρ) :=
+  if all then a ++ b else keepFirst (a ++ b)
+
+/-- View.Except: rows of `a` whose key does not occur in `b`; without ALL only the first of each key -/
+def exceptImpl {ρ : Type} (all : Bool) (a b : List (κ × ρ)) : List (κ × ρ) :=
+  let r := a.filter fun x => !(b.map Prod.fst).contains x.1
+  if all then r else keepFirst r
+
+/-- View.Intersect -/
+def intersectImpl {ρ : Type} (all : Bool) (a b : List (κ × ρ)) : List (κ × ρ) :=
+  let r := a.filter fun x => (b.map Prod.fst).contains x.1
+  if all then r else keepFirst r
+
 end Csvq
